@@ -19,6 +19,8 @@ def run_lang(ctx, prop, max_replay=None):
     ctx.extra["recogniser_nfa_states"] = {k: v["states"] for k, v in info["nfas"].items()}
     ctx.extra["character_pool_size"] = len(info["pool"])
     ctx.extra["kind_orders"] = info["orders"]
+    if info.get("probes"):
+        ctx.extra["recogniser_application_probes"] = info["probes"]
     try:
         res = ctx.mc("MC_Lang", f"MC_Lang_{prop}", deadlock=False, timeout=1800)
     except MachineryError as e:
